@@ -734,12 +734,20 @@ PLANS = {
                                                              "thorough": ["MC_NC_q1.cfg", "MC_NC_q2.cfg", "MC_NC_q3.cfg", "MC_NC_q5.cfg", "MC_NC_q6.cfg"]}, ["C10"], strict=False, cap_q=1000),
                     mc_job("nc_limit", "MC_Netcode", {"quick": ["MC_NC_limit.cfg"], "thorough": ["MC_NC_limit.cfg"]}, ["C10"], strict=False, cap_q=400),
                     # ServerAuthentication::Unsecure: zero-key tokens listing any host connect, tokens sealed with the real key do not
-                    mc_job("nc_unsec", "MC_Netcode", {"quick": ["MC_NC_unsec.cfg"], "thorough": ["MC_NC_unsec.cfg", "MC_NC_unsec_t.cfg"]}, ["C10"], strict=False, cap_q=500)],
+                    mc_job("nc_unsec", "MC_Netcode", {"quick": ["MC_NC_unsec.cfg"], "thorough": ["MC_NC_unsec.cfg", "MC_NC_unsec_t.cfg"]}, ["C10"], strict=False, cap_q=500),
+                    # a client program restarted behind the same address (second client object, fresh token, same id)
+                    mc_job("nc_restart", "MC_Netcode", {"quick": ["MC_NC_restart.cfg"], "thorough": ["MC_NC_restart.cfg"]}, ["C10"], strict=False, cap_q=500)],
                 level="model_checking", assumptions=NC_ASSUME),
     "C16": Plan("msg", "TraceRenetMon", ["C16"],
                 [("wire_renet", g_wire_renet, "msg", "TraceRenetMon"), ("wire_netcode", g_wire_netcode, "nc", "TraceNetcodeMon"),
                  ("sizes", g_sizes, "msg", "TraceRenetMon")],
-                mc=[wire_job], level="model_checking", assumptions=MSG_ASSUME,
+                mc=[wire_job,
+                    # add_pending_ack / acked_largest / the ack codec as functions against a declarative contract, for EVERY canonical
+                    # range list of the scope (not only the reachable ones) x every arriving sequence number
+                    mc_job("wire_contract", "MC_WireContract", {"quick": ["MC_WireContract.cfg", "MC_WireContract_c1.cfg"],
+                                                                 "thorough": ["MC_WireContract.cfg", "MC_WireContract_c1.cfg", "MC_WireContract_t.cfg"]},
+                           ["C16"], export=False, strict=False)],
+                level="model_checking", assumptions=MSG_ASSUME,
                 rule="round-trip cases: every reachable pending-ack range list of the model shifted across the varint width boundaries, packets of "
                      "every kind with fields at 0/1/63/64/16383/16384/2^30-1/2^30/2^62-1, netcode packets of every kind x 15 sequence values x "
                      "payload lengths, tokens with 1..32 IPv4/IPv6 addresses, byte strings (valid encodings, truncations, byte replacements, "
@@ -784,7 +792,10 @@ PLANS = {
                      "replacements and seeded random strings, each injected into a connection in one of the state classes fresh / mid-reassembly / "
                      "buffered / drained / disconnected; distinct = different step lists"),
     "C08": Plan("msg", "TraceRenetMon", ["C08"], [("random_acks", g_random_acks), ("random_mixed", g_random_mixed)],
-                mc=[mc_job("conn_acks", "MC_Conn", {"quick": ["MC_C08_q1.cfg", "MC_C08_q2.cfg"], "thorough": ["MC_C08_q1.cfg", "MC_C08_q2.cfg", "MC_C01_t1.cfg"]}, ["C08"])],
+                mc=[mc_job("conn_acks", "MC_Conn", {"quick": ["MC_C08_q1.cfg", "MC_C08_q2.cfg"], "thorough": ["MC_C08_q1.cfg", "MC_C08_q2.cfg", "MC_C01_t1.cfg"]}, ["C08"]),
+                    # "never acknowledges a sequence number it did not receive": the range list as a function, every canonical list
+                    mc_job("wire_contract", "MC_WireContract", {"quick": ["MC_WireContract.cfg"], "thorough": ["MC_WireContract.cfg", "MC_WireContract_t.cfg"]},
+                           ["C08"], export=False, strict=False)],
                 level="model_checking", assumptions=MSG_ASSUME),
     "C09": Plan("msg", "TraceRenetMon", ["C09"], [("random_mem", g_random_mem), ("random_mixed", g_random_mixed)],
                 mc=[mc_job("conn_mem", "MC_Conn", {"quick": ["MC_C09_q1.cfg", "MC_C09_q2.cfg", "MC_C09_q3.cfg", "MC_C09_q4.cfg", "MC_C09_q5.cfg"],
